@@ -3,3 +3,4 @@
 import PahoProofs.Properties.C19
 import PahoProofs.Properties.C19Sub
 import PahoProofs.Properties.C19Atomic
+import PahoProofs.Properties.FnValidate
